@@ -4,6 +4,7 @@ Monitors: escape monitor on parse_string / write_string; containment pairing (ab
 by the tracer == syntax-level failed blocks); failed-block shape; bounded progress as a logical
 step budget enforced from the sys.monitoring callback; write determinism.
 """
+import sys
 from ..core import Violation, rng_for, tier_pick
 from ..gen import grammar, tokens, garbage
 from ..monitors.tracer import TRACER, StepBudgetExceeded
@@ -19,7 +20,7 @@ RULE = ("cases = all token sequences <= L over the splitter alphabet, random Uni
         "derivations, size-scaled families; non-trivial = the parse produced >= 1 failed block, or the text has >= 1000 lines, "
         "or brace nesting >= 100; distinct = distinct text (families: name and size)")
 ASSUMPTIONS = ["CPU budget = 20 CPU-seconds + 1 s per 2000 characters per parse (process CPU time, ITIMER_VIRTUAL)", "step budget = 400 repository function entries per input character + 20000", "sys.monitoring RAISE events attribute BlockAbortedException to its origin frame"]
-MIN = {"escape_parse": (100000, 1000000), "escape_write": (100000, 1000000), 
+MIN = {"growth_monitor": (30, 30), "escape_parse": (100000, 1000000), "escape_write": (100000, 1000000), 
        "failed_block_shape": (10000, 100000), "size_family": (40, 80)}
 
 ALPHA = ["@a", "@comment", "@string", "@preamble", "{", "}", '"', ",", "=", "\n", " ", "\\", "x", "#"]
@@ -104,6 +105,9 @@ def fam_text(name, n):
         return "@a{k, t = {" + ("\\" * 40 + "}" + "\\" * 41 + "{") * (n // 40) + "}}\n@a{j}"
     if name == "backslash_run_long":
         return "@a{k, t = {" + "\\" * (n * 10) + "}}\n@comment{" + "\\" * (n * 10 + 1) + "}}\n@a{j}"
+    if name == "dup_big_first":
+        # one entry with n/2 fields followed by n/2 entries re-using its key (every duplicate wrapper refers to the big first entry)
+        return "@a{k,\n" + "".join("f%d=1,\n" % i for i in range(n // 2)) + "}\n" + "@a{k}\n" * (n // 2)
     if name == "string_refs":
         return "".join("@string{s%d = {v%d}}\n" % (i, i) for i in range(n)) + "".join("@a{k%d, t = s%d}\n" % (i, i) for i in range(n))
     if name == "at_word_runs":
@@ -126,14 +130,14 @@ FAMILIES = ["blank_lines", "blank_lines_then_entry", "crlf_blank_lines", "commen
             "entries_one_line", "duplicate_entries", "fields", "dup_fields", "nest_value", "nest_value_open", "nest_comment",
             "nest_preamble", "nest_quote", "close_braces", "long_line", "long_free_line", "unterminated_openers",
             "unterminated_openers_sameline", "unterminated_strings", "unterminated_comments", "quotes", "commas", "equals",
-            "ats", "backslash_lines", "backslash_runs", "backslash_run_long", "string_refs", "string_chain", "string_cycle", "at_word_runs", "at_dotted_words", "eof_in_constructs"]
-QUADRATIC = {"duplicate_entries", "unterminated_openers_sameline"}   # O(n^2) work inside the library: capped sizes
+            "ats", "backslash_lines", "backslash_runs", "backslash_run_long", "string_refs", "string_chain", "string_cycle", "at_word_runs", "at_dotted_words", "eof_in_constructs", "dup_big_first"]
+SUPERLINEAR = {"dup_big_first"}   # reported by the growth monitor (known finding K4); sizes capped so that the size runs stay affordable
 
 
 def sizes(tier, name):
     s = [1000, 3000, 10000] if tier == "quick" else [1000, 3000, 10000, 30000, 100000]
-    if name in QUADRATIC:
-        s = [x for x in s if x <= 10000]
+    if name in SUPERLINEAR:
+        s = [x for x in s if x <= 3000]
     return s
 
 
@@ -144,6 +148,9 @@ def cases(tier, seed, shard, nshards):
     for i, (f, n) in enumerate(jobs):
         if i % nshards == shard:
             yield {"k": "fam", "name": f, "n": n}
+    for i, f in enumerate(FAMILIES):
+        if i % nshards == shard:
+            yield {"k": "growth", "name": f}
     for seq in tokens.sequences(ALPHA, _L(tier), shard, nshards):
         yield {"k": "tok", "text": "".join(seq)}
     from ..gen import dictionary
@@ -207,9 +214,65 @@ def cpu_budget(nchars):
     return 20.0 + nchars / 2000.0
 
 
+_G = {"tool": None, "n": 0}
+
+
+def _count_all(code, off):
+    _G["n"] += 1
+
+
+def work(fn):
+    """Number of Python function entries (library, standard library, everything) during fn(): a deterministic measure
+    of work, unlike time."""
+    mon = sys.monitoring
+    if _G["tool"] is None:
+        mon.use_tool_id(4, "verif-growth")
+        mon.register_callback(4, mon.events.PY_START, _count_all)
+        _G["tool"] = 4
+    _G["n"] = 0
+    mon.set_events(4, mon.events.PY_START)
+    try:
+        res = fn()
+    finally:
+        mon.set_events(4, 0)
+    return _G["n"], res
+
+
+def check_growth(case, ctx):
+    """'whatever the size': doubling the size of a family member must about double the work of parsing and of writing.
+    A ratio above 3 (quadratic growth gives 4) means the family turns into a practical hang at the sizes the
+    statement names (10^5 lines), long before a budget per call could show it."""
+    import bibtexparser
+    name = case["name"]
+    out = []
+    meas = {}
+    for n in (400, 800):
+        text = fam_text(name, n)
+        st, r = sp.escape(lambda: work(lambda: bibtexparser.parse_string(text)))
+        if st == "raise":
+            return []          # the size runs report raising
+        p, lib = r
+        st, r = sp.escape(lambda: work(lambda: bibtexparser.write_string(lib)))
+        if st == "raise":
+            return []
+        meas[n] = (p, r[0])
+        ctx.ran(2)
+    ctx.mon("growth_monitor")
+    for i, phase in enumerate(("parse", "write")):
+        a, b = meas[400][i], meas[800][i]
+        ratio = b / max(a, 1)
+        ctx.notes[f"work_ratio_x100:{phase}:{name}"] = int(100 * ratio)
+        if a > 2000 and ratio > 3.0:
+            out.append(Violation("superlinear", f"C01:superlinear:{phase}:{name}", dict(family=name, work_at_400=a, work_at_800=b, ratio=round(ratio, 2))))
+    ctx.state(f"growth:{name}")
+    return out
+
+
 def check(case, ctx):
     import signal
     import bibtexparser
+    if case["k"] == "growth":
+        return check_growth(case, ctx)
     from bibtexparser.library import Library
     from bibtexparser.exceptions import BlockAbortedException
     fam = case["k"] == "fam"
